@@ -73,6 +73,14 @@ def step (h : HState) (line : String) : HState × String :=
   | ["hcoll", p, ct] =>
     ({ h with world := h.world.setColl (fieldS p) { st := Store.init .tree, ctype := parseCType ct }
               abs := { h.abs with colls := fieldS p :: h.abs.colls } }, "hcoll | ok")
+  | ["hcfg", p, tok] =>
+    -- the collection already holds a metadata file (created when its type was set)
+    (match h.world.colls[fieldS p]? with
+     | some c =>
+       let st' := { c.st with files := c.st.files.insert configName (fieldS tok)
+                              worktree := c.st.worktree.insert configName (fieldS tok) }
+       ({ h with world := h.world.setColl (fieldS p) { c with st := st' } }, "hcfg | ok")
+     | none => (h, "hcfg | ok"))
   | ["PUT", p, im, inm, ct, tok] =>
     let r : Req := { path := fieldS p, ifMatch := field im, ifNoneMatch := field inm,
                      ctype := fieldS ct, body := fieldS tok }
@@ -146,6 +154,62 @@ def step (h : HState) (line : String) : HState × String :=
           some ("C02:listed-etag-differs-from-acknowledged-content expected " ++ want)
         else some ("C01:listing-differs expected " ++ want)
     (h, model ++ " | " ++ verdict v)
+  | ["TAGS", p] =>
+    -- observation: `tags <symbolic tree>` (the harness checked that getctag (both namespaces),
+    -- sync-token and getetag agree and that the value is the git tree hash of the entries)
+    let cp := Path.normpathS (fieldS p)
+    (match h.world.colls[cp]? with
+     | some c =>
+       let (st', t) := getCtag c.st
+       let out := match t with
+         | some t => "tags " ++ encPairs (t.toList.filter fun p => p.1 != configName)
+         | none => "notags"
+       -- the tag covers the metadata file too; members are what the abstract world tracks
+       let want := encPairs (h.abs.members cp)
+       let got := match words obsS with
+         | ["tags", t] =>
+           if t.startsWith "=?" then "?not-the-tree-hash-of-the-listed-entries"
+           else encPairs ((decPairs t).filter fun p => p.1 != configName)
+         | _ => "?"
+       let v : Option String :=
+         if !(h.abs.colls.contains cp) then none
+         else if got == want then none
+         else some ("C08:collection-tag-is-not-the-tag-of-the-current-contents expected members " ++ want)
+       ({ h with world := h.world.setColl cp { c with st := st' } }, out ++ " | " ++ verdict v)
+     | none => (h, "notags | ok"))
+  | ["SYNC", p, tok] =>
+    -- tok: `~` (empty token), `=<symbolic tree>` (a token issued earlier) or `!<text>` (foreign)
+    let cp := Path.normpathS (fieldS p)
+    (match h.world.colls[cp]? with
+     | some c =>
+       let newT := c.st.files
+       let (st1, _) := getCtag c.st
+       let foreign := tok.startsWith "!"
+       -- the protocol names a token by its members; find the tree object (with its metadata file)
+       let stripCfg (t : Map String) : List (String × String) := t.toList.filter fun p => p.1 != configName
+       let tokMembers := (treeOf (decPairs tok)).toList
+       let old : Option (Map String) :=
+         if tok == "~" then none
+         else some ((st1.objs.find? fun t => stripCfg t == tokMembers).getD (treeOf (decPairs tok)))
+       let (st2, r) : St × Option (List Change) :=
+         if foreign then (st1, none) else iterChanges st1 old newT
+       let out := match r with
+         | some cs => showChanges cs ++ " " ++ encPairs (newT.toList.filter fun p => p.1 != configName)
+         | none => "rejected"
+       let cur := treeOf (h.abs.members cp)
+       let want := showChanges (diffTrees (old.getD ∅) cur)
+       let v : Option String :=
+         if !(h.abs.colls.contains cp) then none
+         else match words obsS with
+           | ["changes", cs, nt] =>
+             if foreign then some "C07:foreign-token-answered-with-a-change-list"
+             else if "changes " ++ cs != want then some ("C07:wrong-change-list expected " ++ want)
+             else if encPairs ((decPairs nt).filter fun p => p.1 != configName) != encPairs (h.abs.members cp) then
+               some "C07:returned-token-is-not-the-token-of-the-current-state"
+             else none
+           | _ => none
+       ({ h with world := h.world.setColl cp { c with st := st2 } }, out ++ " | " ++ verdict v)
+     | none => (h, "nosync | ok"))
   | ["restart"] => ({ h with world := h.world.restart }, "restart | ok")
   | [] => (h, "")
   | _ => (h, "bad-op | ok")
